@@ -34,6 +34,10 @@ structure Cfg where
   /-- tree-relative named paths; `[]` is the tree root (`brz add` without arguments) -/
   names : List Path
   recurse : Bool
+  /-- git only: does `smart_add` refuse an explicitly named path of the control
+  directory (the code as found does not — finding `git-tree-named-control-file`;
+  the harness probes the tree) -/
+  gitRefusesCtl : Bool := false
   deriving Repr
 
 /-- phase 1: the entry at `p` is versioned because it was named (bzr: or is a
@@ -103,17 +107,18 @@ inductive Err where
   | forbiddenControlFile | noSuchFile
   deriving DecidableEq, Repr
 
-/-- validation of the named paths, in order: bzr refuses names in the tree's
-control directory; a missing path raises `NoSuchFile` -/
-def checkNames (fmt : Fmt) (f : Forest) : List Path → Option Err
+/-- validation of the named paths, in order: bzr (and git if `refuse`) refuses
+names in the tree's control directory; a missing path raises `NoSuchFile` -/
+def checkNames (fmt : Fmt) (refuse : Bool) (f : Forest) : List Path → Option Err
   | [] => none
   | p :: ps =>
     if fmt == .bzr && p.head? == some ".bzr" then some .forbiddenControlFile
+    else if fmt == .git && refuse && p.head? == some ".git" then some .forbiddenControlFile
     else if p != [] && (f.get p).isNone then some .noSuchFile
-    else checkNames fmt f ps
+    else checkNames fmt refuse f ps
 
 def smartAdd (c : Cfg) (f : Forest) : Except Err Forest :=
-  match checkNames c.fmt f c.names with
+  match checkNames c.fmt c.gitRefusesCtl f c.names with
   | some e => .error e
   | none => .ok (pass c [] (rootMode c) f)
 
